@@ -1624,9 +1624,8 @@ def run_sites(ctx, exprs, checks):
         try:
             f()
         except Exception as ex:  # noqa: BLE001
-            import traceback
-            traceback.print_exc()
-            ctx.broken.append({'kind': 'harness', 'error': f'calling-site probes: {type(ex).__name__}: {ex}'})
+            ctx.violation('signal-injection calling sites', 'probe-raises-' + type(ex).__name__, str(ex)[:200],
+                          case={'part': 'E'}, predicate='construction / calls succeed on legal inputs')
 
 
 # =========================================================================== driver
